@@ -288,6 +288,44 @@ func init() {
 			} else {
 				obs = append(obs, mkOb(c, "PKG.use-all-exports", u, "export loop", rng, Violated, "an exported name can be skipped (a loop turn that neither binds it nor returns): use-package would not copy exactly the exported bindings", true))
 			}
+			// ... the value bound is one that was looked up DURING THIS CALL: `vals[i]` of a slice this call
+			// allocated and filled (in place or through a helper that hands back only slices it made), or
+			// the result of Package.Get itself — never a slice kept in a field between calls (a memo of
+			// the language package's exports goes stale as soon as an exported name is rebound or the
+			// export list is re-sorted)
+			for _, lc := range fc.findCalls(pput) {
+				if len(lc.Call.Args) != 2 {
+					continue
+				}
+				val := ast.Unparen(lc.Call.Args[1])
+				freshLookup := false
+				why := ""
+				if ie, ok := val.(*ast.IndexExpr); ok {
+					oa := newOwnAnalysis(c, u)
+					pv := oa.sliceProvOf(ie.X, 0)
+					if pv.fresh && !pv.borrowed && !pv.unknown && !pv.otherField {
+						freshLookup = true
+						why = "`" + types.ExprString(ie.X) + "` is a slice allocated during this call"
+					}
+				} else if ce, ok := val.(*ast.CallExpr); ok {
+					if f := originOf(Callee(info, ce)); f != nil && f.Name() == "Get" {
+						freshLookup = true
+						why = "the value is the result of the lookup itself"
+					}
+				} else if d := soleDef(info, fd.Body, val); d != nil {
+					if ce, ok := ast.Unparen(d).(*ast.CallExpr); ok {
+						if f := originOf(Callee(info, ce)); f != nil && f.Name() == "Get" {
+							freshLookup = true
+							why = "the value is the result of the lookup itself"
+						}
+					}
+				}
+				if freshLookup {
+					obs = append(obs, mkOb(c, "PKG.use-all-exports", u, "bound value looked up in this call", lc.Call, Proved, why, true))
+				} else {
+					obs = append(obs, mkOb(c, "PKG.use-all-exports", u, "bound value looked up in this call", lc.Call, Violated, "the value bound for an exported name (`"+types.ExprString(val)+"`) may come from storage kept between calls instead of a lookup made by this use-package: after an exported name of the used package is rebound — or its export list re-sorted — new packages and later use-package calls receive the old values", true))
+				}
+			}
 			// ... and no path answers `done` without having gone through the binding loop: use-package
 			// copies the exporter's bindings as they are NOW, every time it is called — a shortcut in
 			// front of the loop (a memo of what was imported before, a generation counter) leaves a name
